@@ -1,4 +1,5 @@
 import MoPepGen.Model.Graph
+import MoPepGen.Model.Tvg
 import MoPepGen.Driver.S
 namespace MoPepGen.Driver.G
 open MoPepGen MoPepGen.Spec MoPepGen.Graph MoPepGen.Driver
@@ -106,6 +107,52 @@ def frames (t : TxIn) : List Nat := if t.coding then [t.orfStart % 3] else [0, 1
 
 def firstBad (rs : List String) : String := (rs.find? (· != "ok")).getD "ok"
 
+/-! ### `tvgbuild`: the function-level model of `create_variant_graph` (`Model/Tvg.lean`) -/
+
+/-- `start:stop:ref:alt:TYPE:id+id` (the Python type name, not the merge class of `S.parseVar`) -/
+def parseRec (s : String) : Option Tvg.Rec :=
+  match s.splitOn ":" with
+  | [a, b, r, al, ty, i] =>
+    some { start := a.toNat!, stop := b.toNat!, ref := r.toList, alt := al.toList, type := ty,
+           ids := (i.splitOn "+").map String.toNat! }
+  | _ => none
+
+def idsKey (ids : List Nat) : String := joinWith "+" (ids.map toString)
+
+/-- canonical key of a node: frame, kind, reference range or record ids, sequence -/
+def tvgNodeKey (n : Tvg.TNode) : String :=
+  match n.kind with
+  | .root => if n.rf == 3 then "R" else s!"F{n.rf}"
+  | .ref a b => if a < b then s!"{n.rf}:{a}-{b}:{String.ofList n.seq}" else s!"{n.rf}:e:{String.ofList n.seq}"
+  | .var v => s!"{n.rf}:v{idsKey v.ids}:{String.ofList n.seq}"
+
+def etypeKey : Tvg.EType → String
+  | .reference => "r"
+  | .variantStart => "s"
+  | .variantEnd => "e"
+
+def sortStr (l : List String) : List String := (l.toArray.qsort (· < ·)).toList
+
+/-- the graph up to node renaming: sorted node keys, sorted typed edges between keys -/
+def tvgCanon (g : Tvg.TState) : String :=
+  let keys := g.nodes.toArray.map tvgNodeKey
+  let ns := sortStr keys.toList
+  let es := sortStr (g.edges.map fun e =>
+    s!"{keys.getD e.src "?"}>{keys.getD e.dst "?"}:{etypeKey e.ty}")
+  "N=" ++ joinWith ";" ns ++ "|E=" ++ joinWith ";" es
+
+def handleTvg (args : List String) : String :=
+  match args with
+  | ["tvgbuild", seq, coding, orfStart, orfEnd, _startNF, endNF, _sec, hasOrf, vars] =>
+    let inp : Tvg.TvgIn :=
+      { seq := seq.toList, hasKnownOrf := parseBool coding,
+        orf := if parseBool hasOrf then some (orfStart.toNat!, orfEnd.toNat!) else none,
+        mrnaEndNF := parseBool endNF }
+    match Tvg.createVariantGraph inp ((splitList vars ';').filterMap parseRec) with
+    | .ok g => tvgCanon g
+    | .error e => "error:" ++ e
+  | _ => "bad-op"
+
 def handle (args : List String) : String :=
   match args with
   | ["cp", stage, graph, seq, coding, orfStart, orfEnd, startNF, endNF, sec, vars, rule, exc] =>
@@ -125,6 +172,7 @@ def handle (args : List String) : String :=
   | ["npaths", graph, f] =>
     let g := parseGraph graph
     toString (framePaths g f.toNat!).length
+  | "tvgbuild" :: _ => handleTvg args
   | _ => "bad-op"
 
 end MoPepGen.Driver.G
